@@ -54,6 +54,11 @@ CLAIMS = {
    note="Trusted: simulated Lock/Event/Queue/pipe semantics; preemption at synchronisation/IO operations and at source lines of listed functions; virtual time. Oracle = property automaton spec/GatewayAbs.tla evaluated by TLC on every distinct trace. 'From then on' = from the return of join().",
    technique='TLA+ model of channel dispatch/close model-checked with TLC; real gateway pair in a deterministic simulator with the connection cut at every byte offset (two failure modes, two IO classes) x schedules; every trace validated by TLC against the TLA+ property automaton',
    ref="5/C04"),
+ "C08": dict(
+   text='spec/Wire.tla models N writer threads, atomic pipe writes vs. partial socket sends with and without the write lock, arbitrary read chunking and a cut losing any suffix; TLC checks that the decoded frames are exactly sent frames in per-writer order (frame-granular interleaving), kills the lock-free socket design, and proves arrival under fairness. The real Message.to_io/from_io run over the real Popen2IO and SocketIO on scripted files/sockets with generated frame programs (codes 0-7, ids over the signed 32-bit range, payloads 0-200000 bytes), 1-byte/ random chunkings, partial sends, cuts, random/PCT schedules and line-level preemption; concurrent senders of MB-sized items run on real popen, socket and via gateways. Every recorded execution is judged by TLC (spec/WireCases.tla).',
+   note="Trusted: one write() on a buffered pipe file is atomic; socket sendall = loop of partial sends; payload identity via (type, id, length, uniform fill byte). Real-transport part cannot choose schedules.",
+   technique="TLA+ wire model model-checked with TLC (incl. mutant); real framing code over scripted files/sockets under explored schedules/chunkings + real transports; executions validated by TLC against the TLA+ property automaton",
+   ref="5/C08"),
 }
 
 NOT_YET = {}
